@@ -27,10 +27,8 @@
                              either starts that call's `href` / `src` attribute (value a `SafeUrl`)
                              or lies wholly between the quotes of ONE attribute value of that call
                              (where a `"` of the payload appears as `&quot;`)
-  OPEN (not proved here): `doc_attr_names_nodup` - no tag token carries two attributes of the same name,
-  so that the tokenizer's duplicate-attribute rule (`dropDupNames`) drops nothing.  The theorems above are
-  stated on the token stream BEFORE that rule; dropping a later duplicate can only remove attributes, so
-  `doc_no_smuggled_href` survives it, `doc_attrs_exact` does not need it.
+  `doc_attr_names_nodup` / `doc_tokens_nodup` (no tag token carries two attributes of the same name, so the
+  tokenizer's duplicate-attribute rule `dropDupNames` drops nothing) are proved in `Props/HrefNodup.lean`.
 -/
 import MdIt.Props.LinksDoc
 import MdIt.Lemmas.HrefConverseBound
